@@ -393,7 +393,11 @@ static void case_far(uint64_t idx, vh_rng *r)
     if (m[0] && !m[1]) { mult = -mult; m[1] = far_map(m[0] + mult * 0x100000000LL, span); }
     if (m[1] && par && c->id == CIPH_MANTIS) m[2] = far_map(m[1] + mult * 0x100000000LL, span);
     if (!m[0] || !m[1]) { VH_COUNT("far_placement_unavailable", 1); if (m[0]) munmap(m[0], span); return; }
-    in = m[0] + mis; out = m[1] + mis;            /* out - in == mult * 2^32 exactly */
+    in = m[0] + mis; out = m[1] + mis;            /* out - in == mult * 2^32 exactly ... */
+    if (vh_below(r, 2)) {                         /* ... or a little more or less: (out - in) mod 2^32 is then a small number although the buffers are far apart */
+        unsigned d = 1 + vh_below(r, (unsigned)(span - 64 - len - mis));
+        if (vh_below(r, 2)) out += d; else in += d;
+    }
     memcpy(in, src[0], len); memcpy(out, stale, len);
     if (par && c->id == CIPH_MANTIS) { tw = m[2] ? m[2] + mis : m[0] + 8192 + mis; memcpy(tw, src[1], len); }
     memset(&A, 0, sizeof(A)); memset(&Bh, 0, sizeof(Bh));
